@@ -100,6 +100,16 @@ def run(F, ctx):
         # the tuple handed to validate_tuple comes from iterating the `tuples` parameter
         it = g.derive({3}, through_calls=True)
         ok = all(op_local(c.args[2]) in it for c in vt)
+    if ok:
+        # no iteration may skip the validation: from the element-bearing arm of the loop's next() every path back to next() passes validate_tuple
+        nx = [c for c in g.normal_calls() if (c.static or "") == "std::iter::Iterator::next" and c.bb in loops]
+        for n_ in nx:
+            res = g.derive({n_.dst["l"]}, through_calls=False)
+            for (sb, sadt, spl, smm, sother) in g.enum_switches("std::option::Option"):
+                if spl["l"] in res and "Some" in smm:
+                    leak = g.path(smm["Some"], [n_.bb], stop={c.bb for c in vt})
+                    if leak is not None:
+                        ok = False
     ctx.site("validate_batch: every tuple validated, its violations collected", g.where(), ok=ok)
     if not ok:
         ctx.violation(VE + "::validate_batch:R-C33-b:collect", "validate_batch does not validate every tuple of the batch and collect its violations", g.where())
